@@ -232,4 +232,62 @@ theorem fxInterpAxis_bound_le (p1 p2 c e1 e2 M E : Int) (hle : p1 ≤ p2)
         · have h := hcore.1; ring_nf at h ⊢; linarith
         · have h := hcore.2; ring_nf at h ⊢; linarith
 
+/-- **16.16 interpolation error, one axis** (references in either order): with `(num, den)` the
+exact inference `readerAxis` of the 16.16-unit deltas `e1`, `e2` of the references, the 16.16 result
+`r` satisfies `|den * (r - c * 65536) - num| ≤ den * dist / 2`, `dist` = how far `c` lies inside the
+reference interval (0 outside: exact). -/
+theorem fxInterpAxis_bound (p1 p2 c e1 e2 M E : Int)
+    (hp1 : -M ≤ p1 ∧ p1 ≤ M) (hp2 : -M ≤ p2 ∧ p2 ≤ M) (hc : -M ≤ c ∧ c ≤ M)
+    (he1 : -E ≤ e1 ∧ e1 ≤ E) (he2 : -E ≤ e2 ∧ e2 ≤ E)
+    (hM : 0 ≤ M ∧ M ≤ 16383) (hE : 0 ≤ E) (hfit : 131072 * M + 4 * E + 65536 ≤ 2147483647) :
+    0 < (Iup.readerAxis p1 e1 p2 e2 c).2 ∧
+    2 * ((Iup.readerAxis p1 e1 p2 e2 c).2 *
+          (Iup.fxInterpAxis p1 (p1 * 65536 + e1) p2 (p2 * 65536 + e2) c (c * 65536) - c * 65536)
+        - (Iup.readerAxis p1 e1 p2 e2 c).1) ≤ (Iup.readerAxis p1 e1 p2 e2 c).2 * interpDist p1 p2 c ∧
+    2 * ((Iup.readerAxis p1 e1 p2 e2 c).1 - (Iup.readerAxis p1 e1 p2 e2 c).2 *
+          (Iup.fxInterpAxis p1 (p1 * 65536 + e1) p2 (p2 * 65536 + e2) c (c * 65536) - c * 65536))
+        ≤ (Iup.readerAxis p1 e1 p2 e2 c).2 * interpDist p1 p2 c := by
+  by_cases hle : p1 ≤ p2
+  · exact fxInterpAxis_bound_le p1 p2 c e1 e2 M E hle hp1 hp2 hc he1 he2 hM hE hfit
+  · have hgt : p1 > p2 := by omega
+    rw [fxInterpAxis_swap _ _ _ _ _ _ hgt, readerAxis_swap _ _ _ _ _ hgt, interpDist_comm]
+    exact fxInterpAxis_bound_le p2 p1 c e2 e1 M E (by omega) hp2 hp1 hc he2 he1 hM hE hfit
+
+/-- the distance inside the reference interval is below the inference's denominator -/
+theorem interpDist_lt_den (p1 e1 p2 e2 c : Int) :
+    0 ≤ interpDist p1 p2 c ∧ interpDist p1 p2 c ≤ (Iup.readerAxis p1 e1 p2 e2 c).2 - 1 := by
+  unfold interpDist Iup.readerAxis
+  simp only []
+  by_cases h : p1 > p2
+  · have h1 : min p1 p2 = p2 := Int.min_eq_right (by omega)
+    have h2 : max p1 p2 = p1 := Int.max_eq_left (by omega)
+    have hne : p2 ≠ p1 := by omega
+    rw [h1, h2]
+    simp only [h, if_true, ne_eq, hne, not_false_eq_true, true_or]
+    by_cases hb : p2 < c ∧ c < p1
+    · have a1 : ¬ c ≤ p2 := by omega
+      have a2 : ¬ c ≥ p1 := by omega
+      simp only [hb, and_self, if_true, a1, if_false, a2]; omega
+    · simp only [hb, if_false]
+      by_cases a1 : c ≤ p2
+      · simp [a1]
+      · have a2 : c ≥ p1 := by omega
+        simp [a1, a2]
+  · have h1 : min p1 p2 = p1 := Int.min_eq_left (by omega)
+    have h2 : max p1 p2 = p2 := Int.max_eq_right (by omega)
+    rw [h1, h2]
+    simp only [h, if_false]
+    by_cases hb : p1 < c ∧ c < p2
+    · have a1 : ¬ c ≤ p1 := by omega
+      have a2 : ¬ c ≥ p2 := by omega
+      have hne : p1 ≠ p2 := by omega
+      simp only [hb, and_self, if_true, a1, if_false, a2, ne_eq, hne, not_false_eq_true, true_or]; omega
+    · simp only [hb, if_false]
+      split
+      · by_cases a1 : c ≤ p1
+        · simp [a1]
+        · have a2 : c ≥ p2 := by omega
+          simp [a1, a2]
+      · simp
+
 end FontVerif.GvarApply
